@@ -168,6 +168,27 @@ def gen_valid(rng, depth: int, pools: Pools = DEFAULT_POOLS, max_leaves=12, inva
     return ["rc", rng.choice(pools.rc)]
 
 
+def gen_neutral_only(rng, depth: int, pools: Pools = DEFAULT_POOLS, max_leaves=8):
+    """expressions built from hints and format constraints alone (incl. a format constraint attached to a hint): every composition of
+    them is valid except an O/X that DIRECTLY combines a single hint with a single format constraint"""
+    budget = [max_leaves]
+
+    def node(d):
+        if d == 0 or budget[0] <= 1 or rng.random() < 0.25:
+            budget[0] -= 1
+            r = rng.random()
+            if r < 0.4:
+                return ["hint", rng.choice(pools.hint)]
+            if r < 0.8:
+                return ["fc", rng.choice(pools.fc)]
+            budget[0] -= 1
+            h, f = ["hint", rng.choice(pools.hint)], ["fc", rng.choice(pools.fc)]
+            return ["then", h, f] if rng.random() < 0.6 else ["then", f, h]
+        return [rng.choice(["and", "or", "xor"]), node(d - 1), node(d - 1)]
+
+    return node(depth)
+
+
 def gen_fc_only(rng, depth: int, pool: Sequence[str] = FC_POOL + ["906"], max_leaves=10):
     """G-fc: format constraint keys, U/O/X, brackets"""
     budget = [max_leaves]
